@@ -15,6 +15,7 @@ EXTRA = {  # additional checks expected to notice a change that was written agai
     'C09-b': [], 'C10-b': [], 'C12-a': ['C02'], 'C20-b': ['C08'], 'C11-a': [], 'C05-c': ['C04', 'C02'], 'C11-c': ['C08'],
     'C15-d': ['C08'], 'C16-d': ['C08'], 'C08-c': ['C20'], 'C07-d': ['C11'], 'C18-d': ['C12'], 'C02-c': ['C05'], 'C02-d': ['C15'],
     'C02-f': ['C08'], 'C03-f': ['C02'], 'C04-f': ['C11'], 'C05-e': ['C04'], 'C05-f': ['C02'],
+    'C14-f': ['C02'], 'C16-f': ['C20'], 'C18-e': ['C08'], 'C19-e': ['C11'],
 }
 
 
